@@ -133,6 +133,13 @@ claim("C15",
       "Partial: well-formedness and variation are observed on the real functions, not proved; the proof covers termination (model of the call structure, read from the templates). Trusted: the reflection driver.",
       "Coq proof (termination iff acyclic call structure) + per-type termination correspondence + reflection oracle on real values", "DESIGN.md §5 C15")
 
+claim("C03",
+      "Coq: the Go wire shapes (Sem/GoJson.v, validated against the real encoder) and the TypeScript environment with structural inhabitation (Sem/TsSem.v: exact keys, null only where allowed, tuple lengths, enum literal sets, Kind/Data unions); "
+      "theorems = the induction steps 'conformance to the Go shape implies inhabitation of the TypeScript form', one per type former. The induction is closed by evaluation on every run: the real TypeScript file is parsed into an environment, compared declaration by declaration with the model, "
+      "checked closed and duplicate-free, and every document written by the real Go encoder for random values of every analysed type is checked in Coq to inhabit its declaration.",
+      "Partial: no single theorem over all type graphs (steps + per-document evaluation). Relative to TsSem; no TypeScript compiler offline (syntactic validity = the reader understands the whole file). Trusted: the TypeScript reader, the test binary driver.",
+      "Coq proof (per-former inclusion lemmas) + parsed-declaration correspondence + inhabitation of every real document evaluated in Coq", "DESIGN.md §5 C03")
+
 NOT_YET = "check not built yet in this round (planned, see DESIGN.md §6)"
 
 checks, na = [], []
